@@ -37,6 +37,7 @@ def site_stmt(site, a):
         "useseg-name": '.segment "c.d" { nop }', "test-name": '.test "t.u" { brk }',
         "nested-call": "lda #defined(defined(nosuch))", "macro-recursion": ".macro rm() { rm() }\nrm()",
         "macro-mutual": ".macro ra() { rb() }\n.macro rb() { ra() }\nra()",
+        "mixed-types": '.byte 7\n.byte 1 + "a"\n.byte 8', "mixed-types-insn": 'lda #"a" * 2\nrts', "macro-value": ".macro mv() { nop }\n.byte mv\n.byte 8",
         "macro-recursion-untaken": ".macro ru() {\nnop\n.if 0 { ru() }\n}\nru()",
         "macro-mutual-untaken": ".macro rx() {\nnop\n.if 0 { ry() } else { inx }\n}\n.macro ry() { rx() }\nrx()",
         "shadow-segments": "segments: { default: { start: nop } }", "interp-number": '.const ivn = 5\n.text "{ivn}{nosuch}"',
